@@ -5,6 +5,7 @@ import (
 	"encoding/json"
 	"errors"
 	"fmt"
+	"os"
 	"sort"
 	"strconv"
 	"strings"
@@ -15,11 +16,13 @@ import (
 	"github.com/metal-toolbox/auditevent"
 	"github.com/prometheus/client_golang/prometheus"
 	dto "github.com/prometheus/client_model/go"
+	"go.uber.org/zap"
 	"pgregory.net/rapid"
 
 	"github.com/metal-toolbox/audito-maldito/ingesters/namedpipe"
 	"github.com/metal-toolbox/audito-maldito/ingesters/syslog"
 	"github.com/metal-toolbox/audito-maldito/internal/common"
+	"github.com/metal-toolbox/audito-maldito/internal/health"
 	"github.com/metal-toolbox/audito-maldito/internal/metrics"
 	"github.com/metal-toolbox/audito-maldito/processors/sshd"
 )
@@ -792,3 +795,107 @@ func execC07(c c07Case) Outcome {
 }
 
 func TestC07_SshdFramed(t *testing.T) { RunProp(t, "c07.sshd_framed", genC07, execC07) }
+
+// ---------------------------------------------------------------------------
+// C07 (real FIFO level) — several records through SyslogIngester.Ingest on a
+// real named pipe, with a generated partition into writes.
+
+type c07FifoCase struct {
+	Msgs   []sshdMsg `json:"msgs"`
+	Pads   []int     `json:"pads"`
+	Chunks []int     `json:"chunks"`
+}
+
+func genC07Fifo(rt *rapid.T) c07FifoCase {
+	n := rapid.IntRange(1, 6).Draw(rt, "n")
+	c := c07FifoCase{}
+	total := 0
+	for i := 0; i < n; i++ {
+		m := genSshdMsg(rt)
+		c.Msgs = append(c.Msgs, m)
+		p := rapid.IntRange(1, 3).Draw(rt, "pad")
+		c.Pads = append(c.Pads, p)
+		total += len(m.PID) + p + len(m.Msg) + 1
+	}
+	left := total
+	max := pick(rt, "maxchunk", []int{1, 5, 64, 700, 1 << 16})
+	for left > 0 {
+		k := rapid.IntRange(1, max).Draw(rt, "chunk")
+		if k > left {
+			k = left
+		}
+		c.Chunks = append(c.Chunks, k)
+		left -= k
+		if len(c.Chunks) > 4000 {
+			c.Chunks = append(c.Chunks, left)
+			break
+		}
+	}
+	return c
+}
+
+func execC07Fifo(c c07FifoCase) Outcome {
+	// direct path
+	d := newSshdRig(64)
+	for _, m := range c.Msgs {
+		if err := d.proc.ProcessSshdLogEntry(context.Background(), sshd.SshdLogEntry{PID: m.PID, Message: m.Msg}); err != nil {
+			return fail("direct path error: %v", err)
+		}
+	}
+	direct := collectSshd(d, nil)
+	// framed through a real FIFO
+	dir, path, err := mkfifoDir()
+	if err != nil {
+		panic(&infraError{err.Error()})
+	}
+	defer os.RemoveAll(dir)
+	f := newSshdRig(64)
+	ctx, cancel := context.WithCancel(context.Background())
+	defer cancel()
+	sli := syslog.NewSyslogIngester(path, f.proc, namedpipe.NewNamedPipeIngester(zap.NewNop().Sugar(), health.NewHealth()))
+	done := make(chan error, 1)
+	go func() { done <- sli.Ingest(ctx) }()
+	var stream []byte
+	for i, m := range c.Msgs {
+		stream = append(stream, []byte(m.PID+strings.Repeat(" ", c.Pads[i])+m.Msg+"\n")...)
+	}
+	w, err := os.OpenFile(path, os.O_WRONLY, 0)
+	if err != nil {
+		panic(&infraError{err.Error()})
+	}
+	off := 0
+	for _, k := range c.Chunks {
+		if off+k > len(stream) {
+			k = len(stream) - off
+		}
+		if k <= 0 {
+			break
+		}
+		if _, err := w.Write(stream[off : off+k]); err != nil {
+			break
+		}
+		off += k
+	}
+	if off < len(stream) {
+		_, _ = w.Write(stream[off:])
+	}
+	w.Close()
+	select {
+	case <-done:
+	case <-time.After(20 * time.Second):
+		return fail("SyslogIngester.Ingest did not return within 20s after the writer closed the pipe")
+	}
+	framed := collectSshd(f, nil)
+	if df := direct.diff(framed); df != "" {
+		return fail("records delivered through the FIFO differ from direct hand-over:\n%s", df)
+	}
+	nt := false
+	for _, m := range c.Msgs {
+		if !m.Accepted && m.Form != "invalid_user" {
+			nt = true
+		}
+	}
+	return Outcome{NT: nt, Labels: []string{fmt.Sprintf("records:%d", len(c.Msgs))}}
+}
+
+func TestC07_Fifo(t *testing.T) { RunProp(t, "c07.fifo", genC07Fifo, execC07Fifo) }
